@@ -18,6 +18,7 @@ type pkgInfo struct {
 	pkg   string
 	owner map[*types.Var]string // field object -> "pkg.Struct"
 	ftype map[string]string     // "pkg.Struct.field" -> type text
+	wraps map[string]string     // method whose whole body is `x.once.Do(..)` -> that sync.Once field
 }
 
 // buildOK: the file takes part in a build without the `verif` tag
@@ -85,7 +86,7 @@ func analysePackage(listed []string) {
 	}
 	conf := types.Config{Importer: fakeImporter{}, Error: func(error) {}, DisableUnusedImportCheck: true}
 	tp, _ := conf.Check(files[0].Name.Name, fset, files, info)
-	pi := &pkgInfo{fset: fset, info: info, pkg: files[0].Name.Name, owner: map[*types.Var]string{}, ftype: map[string]string{}}
+	pi := &pkgInfo{fset: fset, info: info, pkg: files[0].Name.Name, owner: map[*types.Var]string{}, ftype: map[string]string{}, wraps: map[string]string{}}
 	// structs declared in the package: owner of every field object, declared type text of every field
 	for _, f := range files {
 		fname := filepath.Base(fset.Position(f.Pos()).Filename)
@@ -128,6 +129,30 @@ func analysePackage(listed []string) {
 		}
 	}
 	sort.Slice(out.Structs, func(i, j int) bool { return out.Structs[i].Name < out.Structs[j].Name })
+	probe := &walker{pi: pi, u: &Unit{}}
+	for _, f := range files {
+		for _, d := range f.Decls {
+			fd, ok := d.(*ast.FuncDecl)
+			if !ok || fd.Body == nil || len(fd.Body.List) != 1 || fd.Recv == nil || len(fd.Recv.List) != 1 {
+				continue
+			}
+			if es, ok := fd.Body.List[0].(*ast.ExprStmt); ok {
+				if c, ok := es.X.(*ast.CallExpr); ok {
+					if se, ok := c.Fun.(*ast.SelectorExpr); ok && se.Sel.Name == "Do" {
+						if _, loc, ok := probe.fieldOf(se.X); ok && syncTypes[pi.ftype[loc]] == "once" {
+							t := fd.Recv.List[0].Type
+							if st, ok := t.(*ast.StarExpr); ok {
+								t = st.X
+							}
+							if id, ok := t.(*ast.Ident); ok {
+								pi.wraps[pi.pkg+"."+id.Name+"."+fd.Name.Name] = loc
+							}
+						}
+					}
+				}
+			}
+		}
+	}
 	for _, f := range files {
 		for _, d := range f.Decls {
 			if fd, ok := d.(*ast.FuncDecl); ok && fd.Body != nil {
